@@ -13,6 +13,7 @@ seen as a disagreement too."""
 from __future__ import annotations
 
 import copy
+import re
 import warnings
 from collections import OrderedDict
 
@@ -132,7 +133,8 @@ def r_elem(x):
                 + " ".join("(" + " ".join("UNDEF" if t is None else r_tv(t) for t in r) + ")" for r in rows) + " }")
     if k == "sub":
         proj = " ".join(f"?v{v}" for v in x[2]) if x[2] else "*"
-        return "{ SELECT " + ("DISTINCT " if x[1] else "") + proj + " WHERE " + r_group(x[3]) + " }"
+        off = f" OFFSET {x[4]}" if len(x) > 4 and x[4] else ""
+        return "{ SELECT " + ("DISTINCT " if x[1] else "") + proj + " WHERE " + r_group(x[3]) + off + " }"
     if k == "group":
         return r_group(x)
     raise ValueError(x)
@@ -151,6 +153,10 @@ def render(case):
         return f"SELECT {mod}{proj} WHERE {body}"
     if f == "ask":
         return f"ASK {body}"
+    if f == "star":
+        # a template whose triples share one blank node: one fresh node per solution
+        tpl = " ".join(f"_:b {r_tv(p)} ?v{v} ." for p, v in case["star"])
+        return f"CONSTRUCT {{ {tpl} }} WHERE {body}"
     tpl = " ".join(f"{r_tv(s)} {r_tv(p)} {r_tv(o)} ." for s, p, o in case["template"])
     return f"CONSTRUCT {{ {tpl} }} WHERE {body}"
 
@@ -270,6 +276,10 @@ def t_alg(n):
         return ["Project", t_alg(_attr(n, "p")), [var_id(v) for v in _attr(n, "PV")]]
     if nm == "Distinct":
         return ["Distinct", t_alg(_attr(n, "p"))]
+    if nm == "Slice":
+        if _attr(n, "length") is not None:
+            raise Unmodelled("Slice with a length (LIMIT)")
+        return ["Slice", int(_attr(n, "start")), t_alg(_attr(n, "p"))]
     if nm == "Graph":
         return ["Graph", t_tv(_attr(n, "term")), t_alg(_attr(n, "p"))]
     raise Unmodelled("algebra node " + nm)
@@ -352,6 +362,8 @@ def c_alg(a):
         return f"(Project {c_alg(a[1])} " + clist(cN(v) for v in a[2]) + ")"
     if k == "Distinct":
         return f"(Distinct {c_alg(a[1])})"
+    if k == "Slice":
+        return f"(Slice {cN(a[1])} {c_alg(a[2])})"
     if k == "Graph":
         return f"(Graph {c_tv(a[1])} {c_alg(a[2])})"
     raise ValueError(a)
@@ -407,7 +419,10 @@ def ref_group(g):
         elif k == "sub":
             inner = ref_group(x[3])
             P = ["Project", inner, sorted(x[2]) if x[2] else None]
-            G = join(G, ["Distinct", P] if x[1] else P)
+            P = ["Distinct", P] if x[1] else P
+            if len(x) > 4 and x[4]:
+                P = ["Slice", x[4], P]          # 18.2.5: Slice is applied last
+            G = join(G, P)
         elif k == "bind":
             G = ["Extend", G, x[2], ref_expr(x[1])]
         else:
@@ -487,6 +502,8 @@ def strip(a):
         return ["Project", strip(a[1]), sorted(a[2])]
     if k == "Distinct":
         return ["Distinct", strip(a[1])]
+    if k == "Slice":
+        return ["Slice", a[1], strip(a[2])]
     if k == "Graph":
         return ["Graph", a[1], strip(a[2])]
     raise ValueError(a)
@@ -584,7 +601,7 @@ class C04(Suite):
     oeq = "obs_eqb"
     spec = "spec_ok"
     kf = "kf"
-    kf_ids = {i: f"F-C04-{i}" for i in (1, 2, 3, 4, 5, 6, 7, 9)}  # 8, 10, 11 fixed in /repo
+    kf_ids = {i: f"F-C04-{i}" for i in (1, 2, 4, 5, 6, 7, 9)}  # 3, 8, 10, 11 fixed in /repo
     corr = "rdflib.plugins.sparql.evaluate.evalPart (evalBGP, evalJoin, evalLazyJoin, evalLeftJoin, evalFilter, evalUnion, evalMinus, evalExtend, evalValues, evalGraph, evalProject, evalDistinct), operators.RelationalExpression/ConditionalAnd/Or/UnaryNot/Builtin_BOUND/Builtin_EXISTS, algebra.translateQuery"
     quick_n = 1200
     thorough_n = 12000
@@ -634,10 +651,35 @@ class C04(Suite):
                     case["proj"] = sorted(rng.sample(vs, rng.randint(1, len(vs))))
         elif r < 0.9:
             case["form"] = "ask"
-        else:
+        elif r < 0.95:
             case["form"] = "construct"
             case["template"] = [self.gen_tpat(env, tmpl=True) for _ in range(rng.choice([1, 2]))]
+        else:
+            # CONSTRUCT { _:b p ?v . [_:b q ?w .] }: one fresh blank node per solution, observed as stars
+            case["form"] = "star"
+            vs = sorted(visible_vars(q)) or [1]
+            k = min(len(vs), rng.choice([1, 1, 2]))
+            case["star"] = [[p, v] for p, v in zip([4, 5], rng.sample(vs, k))]
+        if rng.random() < 0.12:
+            case["ns"] = True        # posed through the graph's namespace bindings, after a decoy (run_impl)
+        if not is_ds and not twin and rng.random() < 0.05:
+            case = self.gen_offset(env)
         return case
+
+    def gen_offset(self, env):
+        """{ ?1 q ?3 . { SELECT ?1 { ?1 p ?2 } OFFSET n } } observed through a projection onto a variable
+        nothing binds, i.e. as the NUMBER of solutions.  Every subject has exactly one q-triple, so every row
+        of the sub-SELECT joins exactly one outer solution and the count does not depend on WHICH n rows the
+        slice drops (no ORDER BY: the order is the implementation's)."""
+        rng = env["rng"]
+        default = []
+        for s in env["subs"]:
+            default.append([s, 5, rng.choice(env["objs"])])
+            for o in rng.sample([1, 2, 3, 10, 11, 12], rng.choice([1, 2, 2, 3])):
+                default.append([s, 4, o])
+        n = rng.choice([1, 1, 2, 3])
+        q = ["group", [["bgp", [[-1, 5, -3]]], ["sub", False, [1], ["group", [["bgp", [[-1, 4, -2]]]]], n]]]
+        return {"ds": False, "default": sorted(default), "named": [], "q": q, "form": "select", "proj": [9], "offset": True}
 
     def gen_var(self, env):
         return env["rng"].randint(1, env["nv"])
@@ -879,6 +921,15 @@ class C04(Suite):
             return {"sel": sorted(rows)}
         if f == "ask":
             return {"ask": bool(res.askAnswer)}
+        if f == "star":
+            # one star per blank node: the template variables it instantiates, as a solution
+            var_of = {term(p): v for p, v in case["star"]}
+            stars = {}
+            for s, p, o in res.graph:
+                if not isinstance(s, BNode) or p not in var_of:
+                    return {"err": "star: unexpected triple"}
+                stars.setdefault(s, []).append([var_of[p], term_id(o)])
+            return {"sel": sorted(sorted(r) for r in stars.values())}
         return {"cons": sorted([term_id(s), term_id(p), term_id(o)] for s, p, o in res.graph)}
 
     def run_impl(self, case):
@@ -896,7 +947,22 @@ class C04(Suite):
             return {"err": "shape: " + type(e).__name__ + str(e)}
         store = self.build(case)
         try:
-            res = store.query(text)
+            if case.get("ns"):
+                # the same query text, its IRIs spelled through a prefix that only the graph's
+                # namespace bindings declare; first posed to a graph that binds the prefix to
+                # ANOTHER namespace (nothing of that answer may stick to the text), then to the data
+                text2 = re.sub(r"<http://e/(\w+)>", r"e:\1", text)
+                decoy = Graph()
+                decoy.bind("e", "http://decoy.example/")
+                decoy.add((URIRef("http://decoy.example/a"), URIRef("http://decoy.example/p"), URIRef("http://decoy.example/b")))
+                try:
+                    list(decoy.query(text2))
+                except Exception:  # noqa: BLE001
+                    pass
+                store.bind("e", "http://e/")
+                res = store.query(text2)
+            else:
+                res = store.query(text)
             return self.observe(case, res)
         except Exception as e:  # noqa: BLE001
             return {"err": type(e).__name__}
@@ -911,7 +977,9 @@ class C04(Suite):
         ds = ("{| ds_default := " + c_graph(case["default"]) + "; ds_named := "
               + clist(ctuple(cN(n), c_graph(ts)) for n, ts in case["named"]) + " |}")
         f = case["form"]
-        form = "FSelect" if f == "select" else "FAsk" if f == "ask" else "(FConstruct " + clist(c_tpat(t) for t in case["template"]) + ")"
+        form = ("FSelect" if f == "select" else "FAsk" if f == "ask"
+                else "(FStar " + clist(cN(v) for _, v in case["star"]) + ")" if f == "star"
+                else "(FConstruct " + clist(c_tpat(t) for t in case["template"]) + ")")
         return "{| c_ds := " + ds + "; c_form := " + form + "; c_alg := " + alg + " |}"
 
     def coq_obs(self, obs):
